@@ -31,7 +31,7 @@ def spec(tier):
             "seeded frames (float, int incl. 0 and negative values, str columns with hostile levels incl. the empty "
             "string; trial columns that are constant in training) x success values (every level, falsy ones, omitted, "
             "absent) x offsets (float column, int column, call, integer arithmetic, constants) x trial specifications "
-            "(column, constant) x new frames (subsets lacking the success level / the smallest value, fractional "
+            "(column, constant, constant bound by name - also against a new frame with a column of that name) x identity of numeric, str, categorical and ordered categorical arguments x new frames (subsets lacking the success level / the smallest value, fractional "
             "values, other trials). distinct = distinct (helper expression, frame seed); non-trivial = always."
         ),
         "assumptions": ["offset(-1) is a unary expression, not a constant: executed, not judged"],
